@@ -46,6 +46,7 @@ enum Entry {
 }
 
 #[derive(Clone, Copy, Debug, PartialEq, Eq)]
+#[repr(usize)]
 enum Fault {
     None,
     ReadSettings,
@@ -54,10 +55,14 @@ enum Fault {
     SetTimeout,
 }
 
-const FAULT_KINDS: [(ErrorKind, &str); 3] = [
+const FAULT_KINDS: [(ErrorKind, &str); 7] = [
     (ErrorKind::NoDevice, "injected: no such device"),
     (ErrorKind::InvalidInput, "injected: port refuses these settings"),
     (ErrorKind::Io(std::io::ErrorKind::PermissionDenied), "injected: permission denied"),
+    (ErrorKind::Io(std::io::ErrorKind::Interrupted), "injected: interrupted system call"),
+    (ErrorKind::Io(std::io::ErrorKind::TimedOut), "injected: timed out"),
+    (ErrorKind::Io(std::io::ErrorKind::WouldBlock), "injected: would block"),
+    (ErrorKind::Io(std::io::ErrorKind::Other), "injected: other i/o error"),
 ];
 
 fn run_case(prior: PortSettings, entry: Entry, fault: Fault, fk: usize, rep: &mut Report) {
@@ -179,9 +184,23 @@ pub fn run(ctx: &Ctx) -> Outcome {
                 run_case(prior, e, fault, (i + j) % FAULT_KINDS.len(), rep);
             }
         }
+        // every error kind at every fault point (persistent faults), on a few priors per shard
+        if i % 16 == 0 {
+            for fk in 0..FAULT_KINDS.len() {
+                for e in [Entry::ConfigurePort(250), Entry::SerialSignBus, Entry::Odk] {
+                    for fault in [Fault::ReadSettings, Fault::Baud, Fault::WriteSettings, Fault::SetTimeout] {
+                        run_case(prior, e, fault, fk, rep);
+                        rep.seen("fault_kind_x_point", (fk * 4 + fault as usize) as u64);
+                    }
+                }
+            }
+        }
         rep.count("priors_done");
     });
-    let mut floors = vec![floor("all 864 prior settings", report.get("priors_done") == 864, report.get("priors_done"))];
+    let mut floors = vec![
+        floor("all 864 prior settings", report.get("priors_done") == 864, report.get("priors_done")),
+        floor("every error kind (7, incl. Interrupted) at every fault point (4)", report.set_len("fault_kind_x_point") == 28, report.set_len("fault_kind_x_point")),
+    ];
     for e in ["configure_port", "SerialSignBus", "Odk"] {
         for f in ["None", "ReadSettings", "Baud", "WriteSettings", "SetTimeout"] {
             let n = report.get(&format!("cells/{}/{}", e, f));
@@ -191,7 +210,7 @@ pub fn run(ctx: &Ctx) -> Outcome {
     Outcome {
         report,
         level: "fault_enumeration",
-        rule: "complete product: 12 baud values x 4 character sizes x 3 parities x 2 stop bits x 3 flow controls = 864 prior settings x 3 entry points (configure_port with timeouts 0, 1 ms, 5 s, 1 h; SerialSignBus::try_new; Odk::try_new) x (no fault + failure of read_settings / baud-rate setter / write_settings / set_timeout); distinct by (prior, entry, fault); all non-trivial".into(),
+        rule: "complete product: 12 baud values x 4 character sizes x 3 parities x 2 stop bits x 3 flow controls = 864 prior settings x 3 entry points (configure_port with timeouts 0, 1 ms, 5 s, 1 h; SerialSignBus::try_new; Odk::try_new) x (no fault + a persistent failure of read_settings / baud-rate setter / write_settings / set_timeout), plus all 7 error kinds (NoDevice, InvalidInput, Io(PermissionDenied / Interrupted / TimedOut / WouldBlock / Other)) at every fault point on a sample of priors; distinct by (prior, entry, fault); all non-trivial".into(),
         exhaustive: true,
         floors,
         assumptions: vec![
